@@ -310,26 +310,46 @@ class Analysis:
         iv = meet(iv, tr)
         return self._refine_by_guards(f, l, pos, iv, env, depth, stack)
 
-    def _root_of(self, f, l):
-        """the single-definition origin of a value (parameter or non-copy single def), or None."""
-        chain = f.copy_chain(l)
-        best = None
-        for x in chain:
-            ds = f.defs(x)
-            if 1 <= x <= f.argc and not ds:
-                return x
-            if len(ds) == 1:
-                d = ds[0]
-                is_copy = d["kind"] == "assign" and (
-                    (d["rv"][0] == "use" and op_place(d["rv"][1]) is not None and
-                     (all(e == "*" for e in op_place(d["rv"][1])[1:]) or
-                      (len(op_place(d["rv"][1])) == 2 and op_place(d["rv"][1])[1].startswith(".0:") and f.local_ty(op_place(d["rv"][1])[0]).startswith("(")))) or
-                    (d["rv"][0] == "ref" and all(e == "*" for e in d["rv"][2][1:])))
-                if not is_copy:
-                    best = x if best is None else min(best, x)
-            elif len(ds) > 1:
-                return None
-        return best
+    def _root_of(self, f, l, _depth=0):
+        """A stable identity for the value held by local `l`:
+        a local (parameter or single non-copy definition), or ("p", place) for a field read through a
+        shared reference parameter (`(*self).depth`), looking through copies and widening casts.
+        None for loop-carried / multiply-defined values."""
+        if _depth > 12:
+            return None
+        ds = f.defs(l)
+        if 1 <= l <= f.argc and not ds:
+            return l
+        if len(ds) != 1:
+            return None
+        d = ds[0]
+        if d["kind"] != "assign":
+            return l
+        rv = d["rv"]
+        if rv[0] == "use":
+            pl = op_place(rv[1])
+            if pl is None:
+                return l
+            if all(e == "*" for e in pl[1:]):
+                return self._root_of(f, pl[0], _depth + 1)
+            if len(pl) == 2 and pl[1].startswith(".0:") and f.local_ty(pl[0]).startswith("("):
+                return self._root_of(f, pl[0], _depth + 1)
+            # field of a shared-reference parameter: immutable for the duration of the call
+            base = pl[0]
+            bty = f.local_ty(base)
+            if 1 <= base <= f.argc and not f.defs(base) and not bty.startswith("&mut") \
+                    and all(isinstance(e, str) and (e == "*" or e.startswith(".")) for e in pl[1:]):
+                return ("p", tuple(pl))
+            return l
+        if rv[0] == "ref" and all(e == "*" for e in rv[2][1:]):
+            return self._root_of(f, rv[2][0], _depth + 1)
+        if rv[0] == "cast" and rv[1].startswith("IntToInt"):
+            src_t, dst_t = type_range(rv[4]), type_range(rv[3])
+            sl = op_local(rv[2])
+            if src_t and dst_t and sl is not None and dst_t[0] <= src_t[0] and src_t[1] <= dst_t[1]:
+                return self._root_of(f, sl, _depth + 1)
+            return l
+        return l
 
     def _edge_facts(self, f, root, env, depth, stack):
         """guards that constrain `root`: list of (edges, rel, other interval) meaning root REL other on those edges."""
@@ -347,7 +367,7 @@ class Analysis:
             pl = op_place(op)
             if len(pl) != 1:
                 return False
-            return root in f.copy_chain(l)
+            return self._root_of(f, l) == root
 
         def sum_parts(op):
             """if op's value is x + y, return [(x, y), (y, x)] operand pairs."""
@@ -391,8 +411,57 @@ class Analysis:
             elif g["kind"] == "pred" and g["op"] == "is_power_of_two" and is_root(g["a"]):
                 facts.append((g["true_edges"], "Ge", (1, 1)))
                 facts.append((g["true_edges"], "Le", (1 << 63, 1 << 63)))
+        # Ok-postconditions of callees: on the Ok edge of `g(.., root, ..)?` the root lies in the
+        # range g accepts for that parameter
+        for bi, t in f.calls():
+            if f.is_cleanup(bi):
+                continue
+            c = callee_of(t)
+            if not c or c["krate"] in ("core", "alloc", "std"):
+                continue
+            idxs = [i for i, a in enumerate(t["a"]) if is_root(a)]
+            if not idxs:
+                continue
+            checks = f.result_checks(bi)
+            if not checks:
+                continue
+            pass_edges = [e for ch in checks for e in ch["pass_edges"]]
+            targets = self.p.call_targets(c)
+            if len(targets) != 1:
+                continue
+            g = self.p.funcs[targets[0]]
+            for i in idxs:
+                acc = self.accepted_param_range(g, i + 1, depth + 1)
+                if acc is not None:
+                    facts.append((pass_edges, "Ge", (acc[0], acc[0])))
+                    facts.append((pass_edges, "Le", (acc[1], acc[1])))
         cache[key] = facts
         return facts
+
+    def accepted_param_range(self, g, param, depth=0):
+        """interval of parameter `param` of g on g's Ok / normal exits (None = no information)."""
+        key = ("acc", g.key, param)
+        cache = self.__dict__.setdefault("_acc_cache", {})
+        if key in cache:
+            return cache[key]
+        cache[key] = None
+        tr = type_range(g.local_ty(param)) if param <= g.argc else None
+        if tr is None or depth > 3 or g.defs(param):
+            return None
+        facts = self._edge_facts(g, param, {}, depth + 1, frozenset())
+        if not facts:
+            return None
+        st = self._flow(g, param, tr, facts)
+        oks = [e["bb"] for e in g.exits() if e["kind"] in ("ok", "some", "value", "use", "other") or e["kind"].startswith("call:")]
+        out = None
+        for b in oks:
+            v = st.get(b)
+            if v is None:
+                continue
+            out = v if out is None else join(out, v)
+        if out is not None and out != tr:
+            cache[key] = out
+        return cache[key]
 
     def _flow(self, f, root, base, facts):
         """forward propagation of the constraints on an immutable value `root` along the CFG."""
@@ -400,7 +469,7 @@ class Analysis:
         for edges, rel, oiv in facts:
             for e in edges:
                 by_edge[(e[0], e[1])].append((rel, oiv, e[2] if len(e) > 2 else None))
-        ds = f.defs(root)
+        ds = f.defs(root) if isinstance(root, int) else []
         start = ds[0]["bb"] if ds else 0
         state = {start: base}
         work = [start]
@@ -667,7 +736,16 @@ class Analysis:
             if name in RET_RANGE_BY_NAME and t["a"]:
                 aty = f.local_ty(op_local(t["a"][0])) if op_local(t["a"][0]) is not None else (op_const(t["a"][0]) or {}).get("ty", "")
                 ab = type_bits(aty.lstrip("&")) or 64
-                return RET_RANGE_BY_NAME[name](ab)
+                r = RET_RANGE_BY_NAME[name](ab)
+                if name == "ilog2":
+                    a0 = self.eval_op(f, t["a"][0], pos, env, depth, stack)
+                    if a0 is not None and a0[0] >= 1:
+                        r = (a0[0].bit_length() - 1, a0[1].bit_length() - 1)
+                if name == "trailing_zeros":
+                    a0 = self.eval_op(f, t["a"][0], pos, env, depth, stack)
+                    if a0 is not None and a0[0] >= 1:
+                        r = (0, ab - 1)
+                return r
             if name == "len" and t["a"]:
                 return self.len_of(f, t["a"][0], pos, env, depth + 1, stack)
             if name in ("capacity", "count"):
